@@ -158,6 +158,7 @@ prop('C05', [
     optab.r_vocab,
     handles.r_parser,
     models.r_to_expr,
+    models.r_operator_str,
 ],
     'the lexer is reconstructed from the source (regex docstrings, PLY '
     'ordering rule) and every spelling of every operator rule and every '
@@ -183,6 +184,7 @@ prop('C06', [
     misc.r_visit,
     bounds.r_accept,
     models.r_collect,
+    models.r_reorder_real,
 ],
     'find_or_add and swap accept exactly the arguments of their contract '
     '(prologue interpreted over small models: no edge to a node that does '
@@ -208,6 +210,7 @@ prop('C07', [
     raw.r_raw,
     reord.r_live_levels,
     state.r_levelsets,
+    models.r_reorder_real,
 ],
     'swap: old children released and new children acquired for every '
     'rewritten node, candidates handed to the rooted collection, '
@@ -225,6 +228,7 @@ prop('C08', [
     memo.r_inval,
     models.r_autoref_apply,
     models.r_autoref_siblings,
+    models.r_reorder_real,
 ],
     'Function.__init__ takes exactly one count on every normal path and '
     'none before a rejection; __del__ gives back exactly one, once '
@@ -245,6 +249,7 @@ prop('C09', [
     reord.r_reord,
     reord.r_retry,
     handles.r_numbers,
+    models.r_json_reordering,
 ],
     'the retry protocol of _try_to_reorder as a typestate (attempt in '
     'context, requests disabled before reorder(), retry in context, '
@@ -278,10 +283,11 @@ prop('C11', [
     handles.r_wrap_target,
     misc.r_args,
     models.r_copy,
+    models.r_manager_copy,
 ],
     'sign and roles in dd.bdd._copy_bdd and dd._copy._copy_bdd; rebuild '
     'through ite on the target variable.',
-    'behaviour when the target lacks a variable.',
+    'copies of diagrams over more than three variables.',
     'path-sensitive sign/role/domain dataflow')
 prop('C12', [
     sign.r_sign,
@@ -377,6 +383,8 @@ prop('C17', [
     handles.r_parser,
     raw.r_tempdir,
     models.r_pickle_corrupt,
+    models.r_configure,
+    models.r_json_reordering,
 ],
     'on every path of every function of dd.bdd, dd.autoref and dd._copy '
     'that writes manager state, no user-facing rejection (explicit raise '
@@ -410,8 +418,10 @@ prop('C18', [
     'path-sensitive sign/role dataflow on accessors and exporters')
 prop('C19', [
     optab.r_optab_backends,
+    # (the pure-Python handle class is the other side of the comparison:
+    # its operator methods must have the meaning the wrappers are held to)
     optab.r_optab_functions({'dd.cudd', 'dd.cudd_zdd', 'dd.sylvan',
-                             'dd.buddy'}),
+                             'dd.buddy', 'dd.autoref'}),
     optab.r_quant_wrappers({'dd.cudd', 'dd.cudd_zdd', 'dd.sylvan'}),
     cyts.r_cyts,
     cyts.r_cache_tags,
@@ -469,7 +479,9 @@ MODEL_TEXT = {
            'functions that drive `swap` on a manager reduced to its '
            'variable order (every start and target permutation of four '
            'variables, pairs adjacent, sifted variable at a position of '
-           'least size, never larger).',
+           'least size, never larger); `reorder` with real swaps (explicit '
+           'orders and sifting) on managers that hold unreferenced nodes, '
+           'followed by a collection.',
     'C08': ' Models: `Function.__init__` / `__del__` against a recording '
            'manager; `BDD.__del__`; `autoref.BDD.apply`; every method '
            '`dd.autoref.BDD` shares with `dd.bdd.BDD` interpreted on both '
